@@ -108,15 +108,21 @@ func (o op) String() string {
 // partialAlphabet: a small alphabet for the partial-merge configuration (a 3-document batch whose
 // segment stays behind with obsoleted documents while the small segments around it merge), explored
 // one level deeper than the general alphabet.
-func partialAlphabet() []op {
+func partialAlphabet(quick bool) []op {
 	I := func(id string, v int) lww.Op { return lww.Op{Kind: "I", ID: id, V: v} }
 	D := func(id string) lww.Op { return lww.Op{Kind: "D", ID: id} }
 	bs := []lww.Batch{
 		{I("a", 1), I("b", 1), I("c", 1)}, {I("a", 2)}, {I("d", 1)}, {I("b", 2)}, {D("b")}, {I("c", 2), D("d")}, {I("zz", 1)}, {I("d", 2), I("never", 1)},
 	}
+	if quick {
+		bs = append(bs[:3:3], bs[3], bs[5], bs[6]) // quick tier: 6 batches
+	}
 	var ops []op
 	for _, b := range bs {
 		ops = append(ops, op{batch: b})
+	}
+	if quick {
+		return ops
 	}
 	return append(ops, op{layout: "reopen"})
 }
@@ -170,7 +176,7 @@ func Run(r *mc.Run) {
 		}
 		cops := ops
 		if c.name == "scorch-disk-partial-merge" || c.gated {
-			cops, d = partialAlphabet(), depth+1
+			cops, d = partialAlphabet(r.Quick()), depth+1
 		}
 		t0 := time.Now()
 		st, tr := explore(r, c, cops, d)
